@@ -41,6 +41,8 @@ _RULES = {
     "CHAR-ESCAPES": rules_units.rule_char_escapes,
     "INDEX-ELEM": rules_units.rule_index_elem,
     "INDEX-DOMAIN": rules_units.rule_index_domain,
+    "DECL-SEARCH": rules_units.rule_decl_search,
+    "REQ-PURE": rules_units.rule_req_pure,
     "ONE-PER-ITEM": rules_units.rule_one_per_item,
     "MESSAGE-SITE": rules_more.rule_message_site,
     "DISPLAY-FIELDS": rules_more.rule_display_fields,
